@@ -439,6 +439,8 @@ class GraphBuilder(BuilderBase):
         # visible to subgraphs per the ONNX spec).
         if parent is None:
             self._constant_cache: dict[tuple[Any, ir.DataType | None, Any], ir.Value] = {}
+            # Number of names generated for constants registered outside the cache.
+            self._uncached_constants = 0
             self._functions: dict[ir.OperatorIdentifier, ir.Function] = {}
             # All graphs built by this builder and its sub-builders; see _node_count().
             self._all_graphs: list[ir.Graph] = [graph]
@@ -666,10 +668,24 @@ class GraphBuilder(BuilderBase):
             ir_value = root.initializer(tensor, name=name, qualify=False)
             root._constant_cache[cache_key] = ir_value
             return ir_value
-        # For other types (TensorProtocol, numpy arrays, torch tensors, etc.),
-        # ir.tensor() handles the conversion.
+        # For other types (TensorProtocol, numpy arrays, torch tensors, nested or
+        # mixed-type sequences, etc.), ir.tensor() handles the conversion.
         # TODO(rama): Consider caching for other tensor values.
-        return self.initializer(ir.tensor(value, dtype=dtype))
+        tensor = ir.tensor(value, dtype=dtype)
+        if tensor.name:
+            return self.initializer(tensor)
+        # An initializer must have a name: generate one for an anonymous constant.
+        name = root._next_uncached_constant_name()
+        tensor.name = name
+        return root.initializer(tensor, name=name, qualify=False)
+
+    def _next_uncached_constant_name(self) -> str:
+        """Return a fresh initializer name for a constant that is not entered into the cache."""
+        while True:
+            name = f"const_tensor_{self._uncached_constants}"
+            self._uncached_constants += 1
+            if name not in self._graph.initializers:
+                return name
 
     def add_node(self, node: ir.Node) -> None:
         """Append a node to the graph, run constant propagation and shape inference.
